@@ -128,6 +128,17 @@ def gen_spec(rng, idx, for_sim):
     usable = good + (["pfree"] if len(params) > len(good) and rng.random() < 0.3 else [])
     variables = []
     nS = rng.choice([2, 3, 3, 4]) if for_sim else rng.choice([1, 1, 2])
+    # overriding sources (decided first, so that attributes can be made to depend on overridden parameters)
+    src = {"file": {}, "code": {}, "code1": {}, "deleted": []}
+    if not for_sim and rng.random() < 0.45:
+        for p in rng.sample(params, rng.randint(1, len(params))):
+            src["file"][p["name"]] = rng.choice([v for v in PVALS if v != p["value"]])
+    if rng.random() < 0.5:
+        for p in rng.sample(params, rng.randint(1, len(params))):
+            src["code"][p["name"]] = rng.choice([v for v in PVALS if v != p["value"]])
+    eff = {p["name"]: src["code"].get(p["name"], src["file"].get(p["name"], p["value"])) for p in params}
+    # parameters whose effective value is supplied from outside the model (incl. one declared without value)
+    over_pars = [n for n in eff if eff[n] is not None and (n in src["code"] or n in src["file"])]
     # ensemble member 1 gets parameter values of its own (start values are resolved per member)
     code1 = {}
     if not for_sim and rng.random() < 0.5:
@@ -148,13 +159,22 @@ def gen_spec(rng, idx, for_sim):
             # simulation keeps a parameter-dependent nominal as it is: one that evaluates to 0 makes
             # initialize() fail with Invalid_Number_Detected (reported; kept out of the main stream)
             _, k, pn, b = a["nominal"]
-            if k * next(p["value"] for p in params if p["name"] == pn) + b == 0.0:
+            if k * eff[pn] + b == 0.0:
                 a["nominal"] = None
         return a
 
     for i in range(nS):
         a = real_attrs("state")
         fixed = rng.choice([True, True, False, None])
+        if over_pars and i == 0 and rng.random() < 0.6:
+            # a nominal that depends on a parameter whose value comes from the file / code (or that
+            # has no value in the model at all): the effective value must be used
+            pn = rng.choice(over_pars)
+            for _ in range(20):
+                k, b = rng.choice([1.0, 2.0, -1.0, 0.5]), float(rng.choice([0, 1, -2, 3]))
+                if abs(k * eff[pn] + b) not in (0.0, 1.0):
+                    a["nominal"] = ("sym", k, pn, b)
+                    break
         if ens_pars and i == 0 and rng.random() < 0.7:
             # a start value that differs between the ensemble members
             a["start"] = ("sym", rng.choice([1.0, 2.0, -1.0, 0.5]), rng.choice(ens_pars), float(rng.choice([0, 1, -2])))
@@ -167,7 +187,8 @@ def gen_spec(rng, idx, for_sim):
                       "eq": "w0 = 2.0*x0 + 1.0" if not for_sim else "w0 = 2.0*u0 + 1.0"})
     if not for_sim and rng.random() < 0.6:
         variables.append({"name": "cnt", "kind": "alg", "mtype": "Integer",
-                          "attrs": {"min": gen_attr(rng, [], [0, -1]), "max": gen_attr(rng, [], [5, 3]),
+                          "attrs": {"min": gen_attr(rng, [], [0, -1, -3, 2], p_absent=0.2),
+                                    "max": gen_attr(rng, [], [5, 3, 7, 12], p_absent=0.2),
                                     "nominal": None, "start": gen_attr(rng, [], [0, 2, 1])},
                           "fixed": None, "output": rng.random() < 0.3, "eq": "cnt = if x0 > 2.0 then 1 else 0"})
     if not for_sim and rng.random() < 0.6:
@@ -189,6 +210,11 @@ def gen_spec(rng, idx, for_sim):
         variables.append({"name": "ub", "kind": "input", "mtype": "Boolean",
                           "attrs": {"min": None, "max": None, "nominal": None, "start": None},
                           "fixed": rng.choice([True, False, None]), "output": False})
+    if not for_sim and rng.random() < 0.4:
+        variables.append({"name": "ui", "kind": "input", "mtype": "Integer",
+                          "attrs": {"min": gen_attr(rng, [], [-2, 2, 0], p_absent=0.2), "max": gen_attr(rng, [], [4, 9], p_absent=0.2),
+                                    "nominal": None, "start": None},
+                          "fixed": rng.choice([True, False, None]), "output": False})
     lookup = []
     if not for_sim and rng.random() < 0.3:
         variables.append({"name": "tab", "kind": "input", "mtype": "Real",
@@ -205,6 +231,8 @@ def gen_spec(rng, idx, for_sim):
                 rhs += " + tab"
             if any(q["name"] == "ub" for q in variables) and i == 0:
                 rhs += " + (if ub then 1.0 else 0.0)"
+            if any(q["name"] == "ui" for q in variables) and i == 0:
+                rhs += " + 0.5*ui"
             eqs.append("der(%s) = %s" % (v["name"], rhs))
         elif "eq" in v:
             eqs.append(v["eq"])
@@ -231,21 +259,13 @@ def gen_spec(rng, idx, for_sim):
         prefix = "input" if v["kind"] == "input" else ("output" if v["output"] else "")
         recs.append({"prefix": prefix, "type": v["mtype"], "name": v["name"], "attrs": attrs})
     rng.shuffle(eqs)
-    # overriding sources
-    src = {"file": {}, "code": {}, "code1": {}, "deleted": []}
-    if not for_sim and rng.random() < 0.45:
-        for p in rng.sample(params, rng.randint(1, len(params))):
-            src["file"][p["name"]] = rng.choice(PVALS)
-    if rng.random() < 0.5:
-        for p in rng.sample(params, rng.randint(1, len(params))):
-            src["code"][p["name"]] = rng.choice(PVALS)
     src["code1"] = code1
     if not for_sim and rng.random() < 0.08 and good:
         src["deleted"] = [rng.choice(good)]
     inherited = {}
     if not for_sim:
         for v in variables:
-            if v["kind"] in ("state", "alg", "input") and rng.random() < 0.3:
+            if v["kind"] in ("state", "alg", "input") and rng.random() < (0.3 if v["mtype"] != "Integer" else 0.15):
                 lo = rng.choice([-INF, -8.0, -1.0, 0.0, float(rng.randint(-30, 0))])
                 hi = rng.choice([INF, 9.0, 1.0, 15.0, float(rng.randint(1, 60))])
                 inherited[v["name"]] = (lo, hi)
@@ -732,6 +752,13 @@ def check_sim(c, spec, folder, lines, pending):
         c.hit("sim/" + why)
         if not abs(got - exp) <= tol * max(1.0, abs(exp)):
             c.fail("simulation: %r starts at %r, expected %r (%s)" % (n, got, exp, why), case)
+        # the nominal in force after initialize(): |n| with the effective parameter values
+        gn = float(s.get_variable_nominal(n))
+        an = v["attrs"]["nominal"]
+        en = decl.nominal(v) if an is None or an[0] == "lit" else abs(decl.resolve(an, 1.0)[0][1])
+        c.count(("sim", "nominal", "abs" if an is None else an[0], an is not None and an[0] == "sym" and an[2] in code))
+        if not (close(gn, en) and gn > 0):
+            c.fail("simulation nominal of %r: expected %r, got %r" % (n, en, gn), case)
         lines.append({"op": "sim", "params": {"model": model_params, "file": [], "code": [[k, pval_wire(x)] for k, x in code.items()]},
                       "decl": decls[n], "initial_state": fr(init_state[n]) if n in init_state else None,
                       "seed": fr(seedv[n]) if n in seedv else None})
